@@ -67,8 +67,16 @@ class Interp:
         if isinstance(c0, dict) and c0.get("k") == "un" and c0.get("op") == "!":
             return not self.cond(c0["e"])
         k, neg = key_of(c0)
-        if k.startswith("p>=") or k.startswith("port>="):
-            return False          # which arm of the digit-count chain is taken does not matter: the value is the symbol D
+        if k.startswith("p>=") or k.startswith("port>=") or k.startswith("*port>="):
+            # the digit-count chain: with d decimal digits the port is in [10^(d-1), 10^d), so `p >= 10^m` holds iff d > m
+            try:
+                nval = int(k.split(">=", 1)[1])
+            except ValueError:
+                raise KeyError(k)
+            m = len(str(nval)) - 1
+            if nval != 10 ** m:
+                raise KeyError(k)
+            return (self.truth.get("#digits", 1) > m) != neg
         self.used.add(k)
         if k not in self.truth:
             raise KeyError(k)
@@ -86,9 +94,7 @@ class Interp:
             if t.endswith(pat) and e0.get("k") == "call":
                 return sym(s)
         if e0.get("k") == "cond":
-            # digits of the port: a chain of comparisons on the port value
-            if "p>=" in t or "port" in t and ">=" in t:
-                return sym("D")
+            # (the digit-count chain on the port value is evaluated like any other condition, see cond())
             return self.ev(e0["t"]) if self.cond(e0["c"]) else self.ev(e0["f"])
         if e0.get("k") == "ref" and e0.get("kind") == "local":
             return self.env.get(e0.get("name"))
@@ -211,6 +217,17 @@ class Interp:
         return out
 
 
+def _digits(l, d):
+    """replace the symbol D (number of decimal digits of the port) by the concrete digit count of this run"""
+    if l is None or "D" not in l.t:
+        return l
+    r = Lin(c=l.c + l.t["D"] * d)
+    for k, v in l.t.items():
+        if k != "D":
+            r.t[k] = v
+    return r
+
+
 def check(ctx, fx, rule="L5"):
     fs = fx.fn1("ada::url::get_href_size")
     fh = fx.fn1("ada::url::get_href")
@@ -238,29 +255,34 @@ def check(ctx, fx, rule="L5"):
         if "has_credentials()" in truth and "username.empty()" in truth and "password.empty()" in truth:
             if truth["has_credentials()"] != (not truth["username.empty()"] or not truth["password.empty()"]):
                 continue
-        a, b = Interp(fs, truth), Interp(fh, truth)
-        try:
-            a.run()
-            b.run()
-        except KeyError as ex:
-            ctx.broken("%s: branch condition %s was not enumerated" % (rule, ex))
-        n += 1
-        size = a.ret
-        length = b.out
-        desc = ", ".join("%s%s" % ("" if truth[k] else "!", k) for k in sorted(a.used | b.used))
-        if size is None or length is None:
-            ctx.broken("%s: could not evaluate get_href_size (%s) or the length of get_href (%s) under [%s]" % (rule, size, length, desc))
-        if size != length:
-            bad.setdefault((str(size), str(length)), desc)
-        if b.ptr is not None:
-            nfast += 1
-            wrote = b.ptr + (b.last_copy if b.last_copy is not None and not truth.get("hash.has_value()") is False else Lin())
-            # bytes advanced through p plus the final memcpy (which is not followed by p += n) must equal `total`
-            written = b.ptr
-            if truth.get("hash.has_value()"):
-                written = written + sym("F")
-            if written != b.total:
-                bad.setdefault(("writes " + str(written), "allocated " + str(b.total)), desc)
+        for ndig in ((1, 2, 3, 4, 5) if truth.get("port.has_value()") else (1,)):
+            truth = dict(truth)
+            truth["#digits"] = ndig
+            a, b = Interp(fs, truth), Interp(fh, truth)
+            try:
+                a.run()
+                b.run()
+            except KeyError as ex:
+                ctx.broken("%s: branch condition %s was not enumerated" % (rule, ex))
+            n += 1
+            size = _digits(a.ret, ndig)
+            length = _digits(b.out, ndig)
+            b.ptr, b.total = _digits(b.ptr, ndig), _digits(b.total, ndig)
+            desc = ", ".join("%s%s" % ("" if truth[k] else "!", k) for k in sorted(a.used | b.used))
+            if truth.get("port.has_value()"):
+                desc += ", port of %d digit(s)" % ndig
+            if size is None or length is None:
+                ctx.broken("%s: could not evaluate get_href_size (%s) or the length of get_href (%s) under [%s]" % (rule, size, length, desc))
+            if size != length:
+                bad.setdefault((str(size), str(length)), desc)
+            if b.ptr is not None:
+                nfast += 1
+                # bytes advanced through p plus the final memcpy (which is not followed by p += n) must equal `total`
+                written = b.ptr
+                if truth.get("hash.has_value()"):
+                    written = written + sym("F")
+                if written != b.total:
+                    bad.setdefault(("writes " + str(written), "allocated " + str(b.total)), desc)
     for (x, y), desc in sorted(bad.items()):
         ctx.fail(rule, "get_href_size vs get_href [%s]" % desc,
                  "under the conditions %s the size check sees `%s` bytes but the serialisation is `%s` bytes long: the limit is compared "
